@@ -41,7 +41,8 @@ SH_WORD = {
     '\\': 'escape', '"': 'quote', "'": 'quote', ' ': 'field separator',
     '\t': 'field separator', '*': 'pathname expansion',
     '?': 'pathname expansion', '[': 'pathname expansion',
-    '#': 'comment at word start', '~': 'tilde expansion at word start',
+    '#': 'comment at word start', '~': 'tilde expansion at word start and after : or = in assignment '
+         'words (XCU 2.6.1)',
     '!': 'reserved word / history', '{': 'reserved word / brace group',
     '}': 'reserved word / brace group',
 }
